@@ -5,11 +5,10 @@ from ..gen import tlbvals as V
 SPEC = dict(
     manifest=dict(
         category='proof',
-        text="Lean proves on a hand model of proof/check_proof.py over the cell model: (completeness, Properties/C11.lean c11_complete, "
-             "c11_account_complete) every pruning (PruneRel, any nesting of Merkle cells; uses the all-levels pruning invariance of Proofs/Prune.lean) of "
-             "every spec-valid level-0 tree of depth <= 1022, wrapped as a Merkle proof cell, can be constructed -- validity of the proof tree is derived "
-             "(Proofs/PruneWF.lean), not assumed -- and is accepted by check_proof and check_block_header_proof against the original level-0 hash, and "
-             "the account check accepts when the located account cell carries the state's hash -- no assumption on SHA-256 beyond 32-byte output; "
+        text="Lean proves on a hand model of proof/check_proof.py over the cell model: (completeness, Properties/C11.lean c11_complete) every pruning "
+             "(PruneRel, any nesting of Merkle cells; uses the all-levels pruning invariance of Proofs/Prune.lean) of every spec-valid level-0 tree of depth "
+             "<= 1022, wrapped as a Merkle proof cell, can be constructed -- validity of the proof tree is derived (Proofs/PruneWF.lean), not assumed -- and is "
+             "accepted by check_proof and check_block_header_proof against the original level-0 hash -- no assumption on SHA-256 beyond 32-byte output; "
              "(soundness) acceptance implies the cell is a well-formed Merkle proof cell (type, 280 bits, one ref, stored hash and depth) whose child has "
              "the expected level-0 hash (c11_sound_shape, c11_reject_*), and under a LOCAL no-collision hypothesis on the finite list of representations "
              "occurring in the two trees (every non-pruned cell at each of its significant levels, every pruned branch), equal level-l hashes force "
@@ -18,28 +17,52 @@ SPEC = dict(
              "they are looked at, and each pair is either a pruned branch answering with a stored hash and the subtree carrying that hash, or two cells of "
              "the same type with the same BIT STRING (padding invertibility, Proofs/Pad.lean), the same reference count and agreeing children; c11_sound: "
              "accept => Agree 0 body t for every t with that level-0 hash, c11_sound_everywhere: and along every path of reference indices down to each unpruned cell; c11_reject_changed / c11_binding_pruned_hash: a changed bit, type or reference "
-             "of an unpruned cell and a substituted pruned hash are rejected; account check: acceptance implies the supplied state's own "
-             "representation hash equals the level-0 hash of the located account cell, so a pruned branch (or a Merkle proof) that merely carries the "
-             "hash is rejected (c11_account_sound, c11_account_reject_pruned). Tie: differential correspondence library = model on generated trees, "
-             "random prunings, exhaustive single-bit flips of small proofs, sampled flips of larger ones, ref drops/swaps/substitutions, wrong hashes, "
-             "non-proof cells, wrong root counts, synthetic ShardStateUnsplit states with 1..50 accounts (all HmLabel forms incl. zero-width lengths), forged "
-             "states, accounts cells without or with a cut HashmapAugE extra; every verdict is also compared with the expectation known by construction.",
-        level_note='Trusted: Lean kernel; Spec/Cell.lean; Model/Cell.lean and Model/Proof.lean as hand transcriptions (sampled correspondence); '
-                   'BoC decoding and the TL-B walk to the account cell are abstracted (parameter `locate`; the driver uses a lookup-only instance '
-                   'that is compared with the library on generated states); SHA-256 is a parameter, soundness assumes no collision among the '
-                   'representations at hand.',
+             "of an unpruned cell and a substituted pruned hash are rejected. ACCOUNT CHECK: the TL-B walk ShardStateUnsplit.deserialize(st).accounts[0][addr].cell[0] is a "
+             "CONCRETE model function (Model/Locate.lean locateAccount: state header fields, load_hashmap_aug_e / parse_aug over the whole ShardAccounts dictionary with "
+             "the C10 label reader, DepthBalanceInfo, ShardAccount, the ^[...] group, custom), no longer a parameter. c11_locate_sound: whatever the walk returns is "
+             "the account cell that the hashmap.tlb LOOKUP of the address designates in the proved state cell (every entry of a successful parse_aug is what the "
+             "lookup of its key finds; keys of a parse are pairwise distinct); c11_account_sound(_lookup): acceptance implies two roots, both pass check_proof, the header "
+             "commits to the state hash, the dictionary of the proved state cell maps the address to a ShardAccount whose account cell has as level-0 hash the "
+             "REPRESENTATION hash of the supplied state (so a pruned branch or Merkle proof that merely carries the hash is rejected, c11_account_reject_pruned; an "
+             "address the lookup does not find is rejected, c11_account_reject_absent); c11_account_sound_state + c11_header_binds_state (END TO END, same local "
+             "no-collision hypothesis): for EVERY genuine block tree with the given root hash its state_update cell stores the state hash sh the check goes on "
+             "with, and for EVERY genuine state tree T with level-0 hash sh, T's own ShardAccounts dictionary maps the address to a ShardAccount whose account "
+             "cell has level-0 hash = hash of the supplied state (the walk commutes with object<->tree and with Agree on ordinary cells, "
+             "Proofs/LocateBind.lean). Completeness of the account check: c11_locate_complete (the walk returns the account cell on every ordinary "
+             "shard_state cell whose ShardAccounts root is a spec-valid HashmapAug 256 with ANY label constructors and ANY edges off the path replaced by pruned "
+             "branches, extras/leaves of the unpruned part readable, ^[...] group and custom pruned or readable) and c11_account_complete_honest (any prunings of "
+             "block and state that keep the header commitment and the walk: both proof cells can be built and check_account_proof returns, whether the "
+             "account cell is in the proof in full or pruned -- pruning invariance along the walk). Tie: differential correspondence library = model on generated "
+             "trees, random prunings, exhaustive single-bit flips of small proofs, sampled flips of larger ones, ref drops/swaps/substitutions, wrong hashes, "
+             "non-proof cells, truncated proof roots, exotic twins, wrong root counts, synthetic ShardStateUnsplit states with 1..50 accounts (all HmLabel forms incl. "
+             "zero-width lengths), forged states, accounts cells without or with a cut HashmapAugE extra, and a stream that drives every branch of the TL-B walk "
+             "(defective leaves / extras / extra-currency dictionaries / ref group / custom / tags, each once pruned away = must accept and once left in = must "
+             "reject); every verdict is also compared with the expectation known by construction, and the cell the library's walk returns with an "
+             "independent Python transcription of the hashmap.tlb lookup.",
+        level_note='Trusted: Lean kernel; Spec/Cell.lean; Model/Cell.lean, Model/Proof.lean, Model/Locate.lean as hand transcriptions (sampled correspondence); '
+                   'BoC decoding (roots = result of Cell.from_boc) is abstracted; of the TL-B walk to the account cell TWO sub-parsers remain Boolean parameters '
+                   '(structure Opaque: Account.deserialize on an account$1 cell, McStateExtra.deserialize on an ordinary cell) -- every account theorem is quantified '
+                   'over all their values, completeness needs them to return where such a cell is left unpruned; in the correspondence their verdicts are taken from '
+                   'the library per case; check_shard_proof is modelled with Boolean parameters and has no correspondence; SHA-256 is a parameter, soundness '
+                   'assumes no collision among the representations at hand.',
         technique='Lean 4 proof (hand model) + differential correspondence with the library',
     ),
     design_ref='DESIGN.md §6 C11',
     rule='trees (ordinary DAGs, exotic trees with library cells and inner Merkle proofs/updates, block-like shapes), random pruning sets at Merkle '
          'depth 1, proof = MPROOF cell over the pruned tree; positive stream must be accepted by check_proof/check_block_header_proof; negative '
          'stream = every single-bit flip of every cell of small proofs, sampled bit/byte flips of larger ones, ref drop/duplicate/swap/substitute, '
-         'wrong expected hashes, non-proof wrappers; account stream = synthetic ShardStateUnsplit with 1..50 accounts, state and header pruned off '
-         'the account path, forged account states (pruned branch / Merkle proof carrying the hash), wrong roots, accounts cell without / with a cut HashmapAugE extra (parser must raise). distinct = distinct (dag, op, '
+         'wrong expected hashes, non-proof wrappers, truncated roots, exotic twins; account stream = synthetic ShardStateUnsplit with 1..50 accounts, state and header pruned off '
+         'the account path, forged account states (pruned branch / Merkle proof carrying the hash), wrong roots, accounts cell without / with a cut HashmapAugE extra (parser must raise); '
+         'walk stream = states with one defect per parser branch (leaf value short / no account ref / empty account cell, fork extra cut, extra-currency value cut, '
+         'ref group short / Grams cut / master_ref short / dict bit without ref, custom junk / missing / no bit, wrong tags), each pruned away (accept) and left in (reject), '
+         'spec-encoded Account / McStateExtra cells from the C16 codecs. distinct = distinct (dag, op, '
          'hash); non-trivial = proof with at least one pruned branch or a negative case',
-    trusted_base=['Model/Proof.lean mirrors check_proof / check_block_header_proof / check_account_proof by hand (after fix commits 56bdc07, 3b51ac3, 83e0e94, 67bd38d; locateAccount after f2933e1, 602ccc8)',
-                  'BoC decoding (Cell.from_boc) and ShardStateUnsplit TL-B parsing are abstracted: roots list and `locate` parameter',
-                  'Spec/Cell.lean transcribes the TON level-mask / per-level hash rules', 'SHA-256 abstract in theorems'],
+    trusted_base=['Model/Proof.lean mirrors check_proof / check_block_header_proof / check_account_proof by hand (after fix commits 56bdc07, 3b51ac3, 83e0e94, 67bd38d)',
+                  'Model/Locate.lean mirrors ShardStateUnsplit.deserialize / load_hashmap_aug_e / parse_aug / DepthBalanceInfo / ShardAccount by hand (after f2933e1, 602ccc8); '
+                  'Account.deserialize (account$1) and McStateExtra.deserialize (ordinary cell) are Boolean parameters whose verdicts the harness takes from the library',
+                  'BoC decoding (Cell.from_boc) is abstracted: roots list',
+                  'Spec/Cell.lean transcribes the TON level-mask / per-level hash rules; Model/Locate.lean lookupShardAccount transcribes the hashmap.tlb lookup and the block.tlb layout of ShardStateUnsplit / ShardAccounts / DepthBalanceInfo / ShardAccount',
+                  'SHA-256 abstract in theorems'],
     assumptions=['hashlib.sha256 is SHA-256', 'soundness theorems assume no SHA-256 collision among the cell representations of the two trees compared',
                  'correspondence is sampled'],
 )
